@@ -207,6 +207,42 @@ def run(chk):
                           tag="program")
             fails = fails + [(recs[0], f)]
     chk.cov["program_steps_equivalence_runs"] = pruns
+    # whole program, no impedance, a train of buckets started off the natural size: EVERY bunch must relax to the natural
+    # spread (the loop then runs an identity map in place of the wake kick; all maps must act on all bunches)
+    import prog
+    import shutil
+    for _ in range(1 if quick else 3):
+        steps = prng.choice([100, 150])
+        tdp = prng.choice([2.5, 3.0])
+        zoom = prng.choice([0.6, 1.5])
+        dtn = prng.choice([3, 4])
+        n = prng.choice([32, 48])
+        cur = prng.choice([["0.001", "0.002"], ["0.001", "0", "0.0005"]])
+        a = list(prog.BASE_ARGS) + ["-s", str(n), "-N", str(steps), "-T", str(int(6 * tdp)), "-n", str(steps), "-G", "0",
+                                    "-d", repr(tdp / P.sync_freq_default()), "--InitialDistZoom", repr(zoom),
+                                    "--derivation", str(dtn), "-o", "a.h5", "-I"] + cur
+        d = prog.scratch()
+        try:
+            r = prog.run_inovesa(exe, a, d)
+            if r.rc != 0:
+                chk.violation("C04: program run failed: " + (r.err or r.out)[-200:], "inovesa %s\n" % " ".join(a), tag="program")
+                continue
+            D = prog.dump(h5, os.path.join(d, "a.h5"))
+        finally:
+            shutil.rmtree(d, ignore_errors=True)
+        nbun = sum(1 for c in cur if float(c) > 0)
+        sp = prog.fvals(D["dsets"]["/EnergySpread/data"])
+        delta = 12.0 / (n - 1)
+        want = math.sqrt(1 - delta * delta / 2) if dtn == 3 else 1.0
+        last = sp[-nbun:]
+        for b, v in enumerate(last):
+            if not abs(v - want) <= 0.02:
+                f = ("program without impedance, %d bunches started at %.1f times the natural size: after 6 damping times bunch %d "
+                     "has energy spread %.4f, natural spread %.4f" % (nbun, zoom, b, v, want))
+                chk.violation("C04 violated: " + f, "# C04: %s\ninovesa %s\n" % (f, " ".join(a)), tag="program_train")
+                fails = fails + [(recs[0], f)]
+                break
+    chk.cov["program_train_runs"] = 1 if quick else 3
     if san:
         chk.violation("sanitizer/abort in the implementation: " + san[:300],
                       "# harness aborted\n" + san + "\n" + "".join(optexts.values())[:200000], tag="sanitizer")
